@@ -23,6 +23,9 @@ type LocalAssignStmt struct {
 
 	Names []string
 	Exprs []Expr
+	// IsLocalFunction is set for `local function f`: only there is the name
+	// in scope inside the function body
+	IsLocalFunction bool
 }
 
 type FuncCallStmt struct {
